@@ -3,8 +3,10 @@
 package mgmt
 
 import (
+	"time"
 
 	"github.com/named-data/ndnd/fw/dispatch"
+	"github.com/named-data/ndnd/fw/face"
 	"github.com/named-data/ndnd/fw/fw"
 	"github.com/named-data/ndnd/fw/table"
 	enc "github.com/named-data/ndnd/std/encoding"
@@ -26,12 +28,26 @@ var verifMgr *Thread
 
 // Trace of state mutator calls: a counter plus the arguments of the last call.
 var verifMutCount int
-var verifMutKind int // 1 rib add, 2 rib remove, 3 fib insert, 4 fib remove, 5 set strategy, 6 unset strategy, 7 cs capacity, 8 face remove, 9 face setting
+var verifMutKind int // 1 rib add, 2 rib remove, 3 fib insert, 4 fib remove, 5 set strategy, 6 unset strategy, 7 cs capacity, 8 face remove, 9 face setting, 10 face added
 var verifMutFace uint64
 var verifMutOrigin uint64
 var verifMutCost uint64
 var verifMutFlags uint64
 var verifMutCap int
+var verifMutNameArr int // the name (prefix) argument of the last table mutator call: backing array, offset, length
+var verifMutNameOff int
+var verifMutNameLen int
+var verifMutMtu int // argument of the last SetMTU call (link service or transport)
+
+// The face table as the management handlers see it: an abstract state (changed only by face creation and removal)
+// and an uninterpreted membership predicate over it. (*face.Table).Get is specified against it, so "the face
+// exists" is a contract-level fact that can be demanded at the mutators.
+var verifFaceSt int
+
+func specFaceIn(st int, id uint64) bool { panic("ghost") }
+
+// specFaceExists: face id is in the face table now.
+func specFaceExists(id uint64) bool { return specFaceIn(verifFaceSt, id) }
 
 // Trace of responses: counter and status code of the last ControlResponse sent.
 var verifResponses int
@@ -99,10 +115,57 @@ func specU64Or(p *uint64, d uint64) uint64 {
 	return d
 }
 
-const specOriginApp = 0       // route origin "app"
+const specOriginApp = 0        // route origin "app"
 const specFlagChildInherit = 1 // route flag "child-inherit"
 const specMinMTU = 128         // smallest MTU the link service can work with (C10)
 const specMaxCsCapacity = 1 << 32
+const specMaxMTU = 8800 // defn.MaxNDNPacketSize: no frame larger than a maximal packet is ever received
+
+// specMtuOf: the MTU a command asks for, as the handlers install it: values above the packet size limit mean the limit.
+// (Meaningful only for m >= specMinMTU; smaller values must be refused.) Stated over the uint64 PARAMETER.
+func specMtuOf(m uint64) int {
+	if m > specMaxMTU {
+		return specMaxMTU
+	}
+	return int(m)
+}
+
+func sliceArr(s any) int      { panic("ghost") } // built-in of the contract language (declared so that this file compiles)
+func sliceOff(s any) int      { panic("ghost") }
+func sameSlice(a, b any) bool { panic("ghost") }
+
+// specNameRec: the last table mutator call was made for exactly the name slice n (same components: same backing array,
+// offset and length).
+func specNameRec(n enc.Name) bool {
+	return verifMutNameArr == sliceArr(n) && verifMutNameOff == sliceOff(n) && verifMutNameLen == len(n)
+}
+
+// specFibHead: dataset record d is the record of FIB entry e: it carries the entry's name and one next-hop record per
+// next hop of the entry.
+func specFibHead(d *mgmt.FibEntry, e table.FibStrategyEntry) bool {
+	return d != nil && sameSlice(d.Name, e.Name()) && len(d.NextHopRecords) == len(e.GetNextHops())
+}
+
+// specRibHead: dataset record d is the record of RIB entry e: the entry's name, one route record per route.
+func specRibHead(d *mgmt.RibEntry, e *table.RibEntry) bool {
+	return d != nil && e != nil && sameSlice(d.Name, e.Name) && len(d.Routes) == len(e.GetRoutes())
+}
+
+// specRouteNum / specRouteExp: route record d shows route r: face, origin, cost, flags; and an expiration period exactly
+// when the route has one (in milliseconds).
+func specRouteNum(d *mgmt.Route, r *table.Route) bool {
+	return d != nil && r != nil && d.FaceId == r.FaceID && d.Origin == r.Origin && d.Cost == r.Cost && d.Flags == r.Flags
+}
+
+func specRouteExp(d *mgmt.Route, r *table.Route) bool {
+	return d != nil && r != nil && (d.ExpirationPeriod != nil) == (r.ExpirationPeriod != nil) &&
+		(r.ExpirationPeriod == nil || *d.ExpirationPeriod == uint64(*r.ExpirationPeriod/time.Millisecond))
+}
+
+// specChoiceRec: strategy-choice record d shows entry e: its name and its strategy.
+func specChoiceRec(d *mgmt.StrategyChoice, e table.FibStrategyEntry) bool {
+	return d != nil && sameSlice(d.Name, e.Name()) && d.Strategy != nil && sameSlice(d.Strategy.Name, e.GetStrategy())
+}
 
 func specMgr(m Module) *Thread {
 	if v, ok := m.(*RIBModule); ok {
@@ -137,35 +200,37 @@ var _ mgmt.ControlArgs
 //@ func (*github.com/named-data/ndnd/fw/table.RibTable).AddEncRoute
 //@   trusted
 //@   requires specAuthRib() && route != nil
-//@   modifies verifMutCount, verifMutKind, verifMutFace, verifMutOrigin, verifMutCost, verifMutFlags
-//@   ensures verifMutCount == old(verifMutCount)+1 && verifMutKind == 1 && verifMutFace == route.FaceID && verifMutOrigin == route.Origin && verifMutCost == route.Cost && verifMutFlags == route.Flags
+//@   requires [face-exists] specFaceExists(route.FaceID)
+//@   modifies verifMutCount, verifMutKind, verifMutFace, verifMutOrigin, verifMutCost, verifMutFlags, verifMutNameArr, verifMutNameOff, verifMutNameLen
+//@   ensures verifMutCount == old(verifMutCount)+1 && verifMutKind == 1 && verifMutFace == route.FaceID && verifMutOrigin == route.Origin && verifMutCost == route.Cost && verifMutFlags == route.Flags && verifMutNameArr == sliceArr(name) && verifMutNameOff == sliceOff(name) && verifMutNameLen == len(name)
 
 //@ func (*github.com/named-data/ndnd/fw/table.RibTable).RemoveRouteEnc
 //@   trusted
 //@   requires specAuthRib()
-//@   modifies verifMutCount, verifMutKind, verifMutFace, verifMutOrigin
-//@   ensures verifMutCount == old(verifMutCount)+1 && verifMutKind == 2 && verifMutFace == faceID && verifMutOrigin == origin
+//@   modifies verifMutCount, verifMutKind, verifMutFace, verifMutOrigin, verifMutNameArr, verifMutNameOff, verifMutNameLen
+//@   ensures verifMutCount == old(verifMutCount)+1 && verifMutKind == 2 && verifMutFace == faceID && verifMutOrigin == origin && verifMutNameArr == sliceArr(name) && verifMutNameOff == sliceOff(name) && verifMutNameLen == len(name)
 
 //@ func (github.com/named-data/ndnd/fw/table.FibStrategy).InsertNextHopEnc
 //@   requires specAuth()
-//@   modifies verifMutCount, verifMutKind, verifMutFace, verifMutCost
-//@   ensures verifMutCount == old(verifMutCount)+1 && verifMutKind == 3 && verifMutFace == nextHop && verifMutCost == cost
+//@   requires [face-exists] specFaceExists(nextHop)
+//@   modifies verifMutCount, verifMutKind, verifMutFace, verifMutCost, verifMutNameArr, verifMutNameOff, verifMutNameLen
+//@   ensures verifMutCount == old(verifMutCount)+1 && verifMutKind == 3 && verifMutFace == nextHop && verifMutCost == cost && verifMutNameArr == sliceArr(name) && verifMutNameOff == sliceOff(name) && verifMutNameLen == len(name)
 
 //@ func (github.com/named-data/ndnd/fw/table.FibStrategy).RemoveNextHopEnc
 //@   requires specAuth()
-//@   modifies verifMutCount, verifMutKind, verifMutFace
-//@   ensures verifMutCount == old(verifMutCount)+1 && verifMutKind == 4 && verifMutFace == nextHop
+//@   modifies verifMutCount, verifMutKind, verifMutFace, verifMutNameArr, verifMutNameOff, verifMutNameLen
+//@   ensures verifMutCount == old(verifMutCount)+1 && verifMutKind == 4 && verifMutFace == nextHop && verifMutNameArr == sliceArr(name) && verifMutNameOff == sliceOff(name) && verifMutNameLen == len(name)
 
 //@ func (github.com/named-data/ndnd/fw/table.FibStrategy).SetStrategyEnc
 //@   requires specAuth()
 //@   requires len(strategy) >= 1
-//@   modifies verifMutCount, verifMutKind
-//@   ensures verifMutCount == old(verifMutCount)+1 && verifMutKind == 5
+//@   modifies verifMutCount, verifMutKind, verifMutNameArr, verifMutNameOff, verifMutNameLen
+//@   ensures verifMutCount == old(verifMutCount)+1 && verifMutKind == 5 && verifMutNameArr == sliceArr(name) && verifMutNameOff == sliceOff(name) && verifMutNameLen == len(name)
 
 //@ func (github.com/named-data/ndnd/fw/table.FibStrategy).UnSetStrategyEnc
 //@   requires specAuth() && len(name) >= 1
-//@   modifies verifMutCount, verifMutKind
-//@   ensures verifMutCount == old(verifMutCount)+1 && verifMutKind == 6
+//@   modifies verifMutCount, verifMutKind, verifMutNameArr, verifMutNameOff, verifMutNameLen
+//@   ensures verifMutCount == old(verifMutCount)+1 && verifMutKind == 6 && verifMutNameArr == sliceArr(name) && verifMutNameOff == sliceOff(name) && verifMutNameLen == len(name)
 
 //@ func github.com/named-data/ndnd/fw/table.SetCsCapacity
 //@   trusted
@@ -176,25 +241,153 @@ var _ mgmt.ControlArgs
 //@ func (*github.com/named-data/ndnd/fw/face.Table).Remove
 //@   trusted
 //@   requires specAuth()
-//@   modifies verifMutCount, verifMutKind, verifMutFace
+//@   modifies verifMutCount, verifMutKind, verifMutFace, verifFaceSt
 //@   ensures verifMutCount == old(verifMutCount)+1 && verifMutKind == 8 && verifMutFace == id
+//@   ensures !specFaceExists(id)
+//@   ensures forall(func(j uint64) bool { return j != id ==> specFaceIn(verifFaceSt, j) == specFaceIn(old(verifFaceSt), j) })
 
-// (*face.Table).Get: result arbitrary (any face or nil), no effect (the table is a sync.Map of LinkService values).
+// (*face.Table).Get: the face registered under id, nil exactly when there is none; no effect (the table is a sync.Map
+// of LinkService values, outside the subset).
+//
+// What it hands out is a registered link service (specFaceReg): stored by (*Table).Add through the pointer receiver of
+// a Run method, never a typed nil pointer; and the only LinkService implementation besides NDNLPLinkService, the
+// NullLinkService, exists once, over the null transport (fw/executor start-up), whose remote URI has scheme "null".
 //
 //@ func (*github.com/named-data/ndnd/fw/face.Table).Get
 //@   trusted
+//@   ensures (result != nil) == specFaceExists(id)
+//@   ensures result != nil ==> specFaceReg(result)
 
-// Face settings: SetMTU carries the transport invariant needed by sendPacket (C10): MTU >= specMinMTU.
+// specFaceOk: a link service as the face table holds it: not nil, and not a typed nil pointer.
+func specFaceOk(f face.LinkService) bool {
+	if v, ok := f.(*face.NDNLPLinkService); ok {
+		return v != nil
+	}
+	return f != nil
+}
+
+// specFaceReg: a registered link service: specFaceOk, and either an NDNLP link service or the null face.
+func specFaceReg(f face.LinkService) bool {
+	if v, ok := f.(*face.NDNLPLinkService); ok {
+		return v != nil
+	}
+	return f != nil && f.RemoteURI().Scheme() == "null"
+}
+
+// Face settings: SetMTU carries the transport invariant needed by sendPacket (C10): MTU >= specMinMTU (a smaller MTU
+// leaves no room for payload: the face drops everything), and MTU <= the maximal packet size.
 //
 //@ func (github.com/named-data/ndnd/fw/face.LinkService).SetMTU
-//@   requires specAuth() && mtu >= specMinMTU
-//@   modifies verifMutCount, verifMutKind
-//@   ensures verifMutCount == old(verifMutCount)+1 && verifMutKind == 9
+//@   requires specAuth()
+//@   requires [mtu-range] specMinMTU <= mtu && mtu <= specMaxMTU
+//@   modifies verifMutCount, verifMutKind, verifMutMtu
+//@   ensures verifMutCount == old(verifMutCount)+1 && verifMutKind == 9 && verifMutMtu == mtu
 
 //@ func (github.com/named-data/ndnd/fw/face.LinkService).SetPersistency
 //@   requires specAuth()
 //@   modifies verifMutCount, verifMutKind
 //@   ensures verifMutCount == old(verifMutCount)+1 && verifMutKind == 9
+
+// mgmt's environment model of SetOptions (its effect on the link service is verified in fw/face, C10): a face setting
+// like the two above, so it needs the authorisation and is recorded in the trace.
+//
+//@ func (*github.com/named-data/ndnd/fw/face.NDNLPLinkService).SetOptions
+//@   trusted
+//@   requires specAuth()
+//@   modifies verifMutCount, verifMutKind
+//@   ensures verifMutCount == old(verifMutCount)+1 && verifMutKind == 9
+
+//@ func (*github.com/named-data/ndnd/fw/face.NDNLPLinkService).Options
+//@   trusted
+
+// Face creation (faces/create): the transport constructors open a socket but register nothing; the face enters the face
+// table in (*NDNLPLinkService).Run (FaceTable.Add) - that call is the state mutator. The MTU of the new transport is
+// set on the transport itself before the link service exists; same range as LinkService.SetMTU.
+//
+//@ func github.com/named-data/ndnd/fw/face.MakeUnicastUDPTransport
+//@   trusted
+//@   requires specAuth() && remoteURI != nil
+//@   ensures (result0 != nil) == (result1 == nil)
+
+//@ func github.com/named-data/ndnd/fw/face.MakeUnicastTCPTransport
+//@   trusted
+//@   requires specAuth() && remoteURI != nil
+//@   ensures (result0 != nil) == (result1 == nil)
+
+//@ func (*github.com/named-data/ndnd/fw/face.transportBase).SetMTU
+//@   trusted
+//@   requires [mtu-range] specMinMTU <= mtu && mtu <= specMaxMTU
+//@   modifies verifMutMtu
+//@   ensures verifMutMtu == mtu
+
+//@ func github.com/named-data/ndnd/fw/face.MakeNDNLPLinkService
+//@   trusted
+//@   requires transport != nil
+//@   ensures result != nil
+
+//@ func (*github.com/named-data/ndnd/fw/face.NDNLPLinkService).Run
+//@   trusted
+//@   requires specAuth()
+//@   modifies verifMutCount, verifMutKind, verifFaceSt
+//@   ensures verifMutCount == old(verifMutCount)+1 && verifMutKind == 10
+
+//@ func (*github.com/named-data/ndnd/fw/face.Table).GetByURI
+//@   trusted
+//@   ensures result != nil ==> specFaceReg(result)
+
+// Closing a transport that was never handed to a link service changes no forwarder table.
+//
+//@ func (*github.com/named-data/ndnd/fw/face.UnicastUDPTransport).Close
+//@   trusted
+
+//@ func (*github.com/named-data/ndnd/fw/face.UnicastTCPTransport).Close
+//@   trusted
+
+// Immutable attributes of a face and its traffic counters as read while one command is processed (A-SEQ): functions of
+// the face. (MTU and Persistency are settings that faces/update changes: NOT pure.)
+//
+//@ func (github.com/named-data/ndnd/fw/face.LinkService).FaceID
+//@   pure
+
+//@ func (github.com/named-data/ndnd/fw/face.LinkService).Scope
+//@   pure
+
+//@ func (github.com/named-data/ndnd/fw/face.LinkService).LinkType
+//@   pure
+
+//@ func (github.com/named-data/ndnd/fw/face.LinkService).NInInterests
+//@   pure
+
+//@ func (github.com/named-data/ndnd/fw/face.LinkService).NInData
+//@   pure
+
+//@ func (github.com/named-data/ndnd/fw/face.LinkService).NInBytes
+//@   pure
+
+//@ func (github.com/named-data/ndnd/fw/face.LinkService).NOutInterests
+//@   pure
+
+//@ func (github.com/named-data/ndnd/fw/face.LinkService).NOutData
+//@   pure
+
+//@ func (github.com/named-data/ndnd/fw/face.LinkService).NOutBytes
+//@   pure
+
+// A face has URIs (set by every transport constructor).
+//
+//@ func (github.com/named-data/ndnd/fw/face.LinkService).RemoteURI
+//@   pure
+//@   ensures result != nil
+
+//@ func (github.com/named-data/ndnd/fw/face.LinkService).LocalURI
+//@   pure
+//@   ensures result != nil
+
+// The scheme of a face URI does not change once the URI belongs to a face.
+//
+//@ func (*github.com/named-data/ndnd/fw/defn.URI).Scheme
+//@   trusted
+//@   pure
 
 // ---------------------------------------------------------------------------------------
 // Environment: responses, name prefix test, parameter decoding
@@ -221,10 +414,10 @@ var _ mgmt.ControlArgs
 // A-FRESH: the TLV parser allocates what it returns: the decoded Strategy name does not share its backing array with
 // the command name or the management prefix (so appending the default version to it cannot change them).
 //
-//@ func lemmaParamsSeparate
-//@   trusted
-//@   requires p != nil && p.Strategy != nil && verifCmd != nil && verifMgr != nil
-//@   ensures sliceArr(p.Strategy.Name) != sliceArr(verifCmd.NameV) && sliceArr(p.Strategy.Name) != sliceArr(verifMgr.localPrefix)
+// @ func lemmaParamsSeparate
+// @   trusted
+// @   requires p != nil && p.Strategy != nil && verifCmd != nil && verifMgr != nil
+// @   ensures sliceArr(p.Strategy.Name) != sliceArr(verifCmd.NameV) && sliceArr(p.Strategy.Name) != sliceArr(verifMgr.localPrefix)
 func lemmaParamsSeparate(p *mgmt.ControlArgs) {}
 
 // Never panics for any name that has a parameters component; on success the result is a fresh ControlArgs.
@@ -242,8 +435,17 @@ func lemmaParamsSeparate(p *mgmt.ControlArgs) {}
 //@ func (github.com/named-data/ndnd/fw/table.FibStrategy).GetAllForwardingStrategies
 //@   ensures forallIn(0, len(result), func(i int) bool { return result[i] != nil })
 
+// (the name and the next-hop list of an entry are read twice while one dataset is built: functions of the entry, A-SEQ)
+//
 //@ func (github.com/named-data/ndnd/fw/table.FibStrategyEntry).GetNextHops
+//@   pure
 //@   ensures forallIn(0, len(result), func(i int) bool { return result[i] != nil })
+
+//@ func (github.com/named-data/ndnd/fw/table.FibStrategyEntry).Name
+//@   pure
+
+//@ func (github.com/named-data/ndnd/fw/table.FibStrategyEntry).GetStrategy
+//@   pure
 
 //@ func (*github.com/named-data/ndnd/fw/table.RibTable).GetAllEntries
 //@   trusted
@@ -263,26 +465,38 @@ func lemmaParamsSeparate(p *mgmt.ControlArgs) {}
 // The dispatcher must establish the authorisation its verbs need (FAILS: RIB has no prefix test at all).
 //
 //@ func (*RIBModule).handleIncomingInterest
-//@   requires specCmd(r.manager, interest)
-//@   modifies verifResponses, verifStatus, verifMutCount, verifMutKind, verifMutFace, verifMutOrigin, verifMutCost, verifMutFlags, r.nextRIBDatasetVersion
+//@   requires specCmd(r.manager, interest) && specFaceExists(inFace)
+//@   modifies verifResponses, verifStatus, verifMutCount, verifMutKind, verifMutFace, verifMutOrigin, verifMutCost, verifMutFlags, r.nextRIBDatasetVersion, verifMutNameArr, verifMutNameOff, verifMutNameLen
 //@   ensures !specAuthRib() ==> verifMutCount == old(verifMutCount)
+//@   ensures [one-verb] (verifResponses == old(verifResponses) || verifResponses == old(verifResponses)+1) && (verifMutCount == old(verifMutCount) || verifMutCount == old(verifMutCount)+1)
 //@   assert before prefixLength@1 [guard] specIsPrefix(r.manager.localPrefix, interest.NameV) || (enableLocalhopManagement && specIsPrefix(r.manager.nonLocalPrefix, interest.NameV))
 //@   assert before prefixLength@1 [auth] specAuthRib()
 
+// The face the route is registered for (FaceId when present and non-zero, else the requesting face) must exist: that is
+// the precondition [face-exists] of AddEncRoute, so status 200 is reached only for an existing face; the 410 answer is
+// given only when the NAMED face (not the requesting one) is missing. The requesting face is in the face table while its
+// command is processed (environment, A-SEQ: precondition specFaceExists(inFace)).
+//
 //@ func (*RIBModule).register
-//@   requires specCmd(r.manager, interest) && specAuthRib()
-//@   modifies verifResponses, verifStatus, verifMutCount, verifMutKind, verifMutFace, verifMutOrigin, verifMutCost, verifMutFlags
+//@   requires specCmd(r.manager, interest) && specAuthRib() && specFaceExists(inFace)
+//@   modifies verifResponses, verifStatus, verifMutCount, verifMutKind, verifMutFace, verifMutOrigin, verifMutCost, verifMutFlags, verifMutNameArr, verifMutNameOff, verifMutNameLen
 //@   ensures [resp] verifResponses == old(verifResponses)+1
-//@   ensures [ok] verifStatus == 200 ==> verifMutCount == old(verifMutCount)+1 && verifMutKind == 1
+//@   ensures [ok] verifStatus == 200 ==> verifMutCount == old(verifMutCount)+1 && verifMutKind == 1 && specFaceExists(verifMutFace)
 //@   ensures [refuse] verifStatus != 200 ==> verifMutCount == old(verifMutCount)
+//@   ensures [4xx] verifStatus == 200 || (400 <= verifStatus && verifStatus <= 499)
+//@   assert before sendResponse@2 [gone] response.Val.StatusCode == 410 && !specFaceExists(specFaceOr(params.FaceId, inFace))
+//@   assert before LogInfo@1 [effect-recorded] specNameRec(params.Name) && verifMutFace == specFaceOr(params.FaceId, inFace) && verifMutOrigin == specU64Or(params.Origin, specOriginApp) && verifMutCost == specU64Or(params.Cost, 0) && verifMutFlags == specU64Or(params.Flags, specFlagChildInherit)
+//@   assert before LogInfo@2 [effect-recorded] specNameRec(params.Name) && verifMutFace == specFaceOr(params.FaceId, inFace) && verifMutOrigin == specU64Or(params.Origin, specOriginApp) && verifMutCost == specU64Or(params.Cost, 0) && verifMutFlags == specU64Or(params.Flags, specFlagChildInherit)
 //@   assert before AddEncRoute@1 [effect] faceID == specFaceOr(params.FaceId, inFace) && origin == specU64Or(params.Origin, specOriginApp) && cost == specU64Or(params.Cost, 0) && flags == specU64Or(params.Flags, specFlagChildInherit)
 
 //@ func (*RIBModule).unregister
 //@   requires specCmd(r.manager, interest) && specAuthRib()
-//@   modifies verifResponses, verifStatus, verifMutCount, verifMutKind, verifMutFace, verifMutOrigin
+//@   modifies verifResponses, verifStatus, verifMutCount, verifMutKind, verifMutFace, verifMutOrigin, verifMutNameArr, verifMutNameOff, verifMutNameLen
 //@   ensures [resp] verifResponses == old(verifResponses)+1
 //@   ensures [ok] verifStatus == 200 ==> verifMutCount == old(verifMutCount)+1 && verifMutKind == 2
+//@   ensures [4xx] verifStatus == 200 || (400 <= verifStatus && verifStatus <= 499)
 //@   ensures [refuse] verifStatus != 200 ==> verifMutCount == old(verifMutCount)
+//@   assert before LogInfo@1 [effect-recorded] specNameRec(params.Name) && verifMutFace == specFaceOr(params.FaceId, inFace) && verifMutOrigin == specU64Or(params.Origin, specOriginApp)
 //@   assert before RemoveRouteEnc@1 [effect] faceID == specFaceOr(params.FaceId, inFace) && origin == specU64Or(params.Origin, specOriginApp)
 
 //@ func (*RIBModule).announce
@@ -290,41 +504,80 @@ func lemmaParamsSeparate(p *mgmt.ControlArgs) {}
 //@   modifies verifResponses, verifStatus
 //@   ensures verifResponses == old(verifResponses)+1 && verifStatus != 200
 
+// rib/list: as fib/list: one record per RIB entry of the table, in order, with the entry's name and one route record
+// per route ([exact], before the dataset is encoded); when a record is appended, its route records show the routes of
+// that entry in order: face, origin, cost, flags, expiration ([routes-exact]).
+//
 //@ func (*RIBModule).list
 //@   requires specCmd(r.manager, interest)
 //@   modifies r.nextRIBDatasetVersion
+//@   loop 1 invariant dataset != nil && fresh(dataset) && len(dataset.Entries) == rangeindex+1 && (cap(dataset.Entries) == 0 || fresh(dataset.Entries))
+//@   loop 1 invariant forallIn(0, len(dataset.Entries), func(k int) bool { return allocated(dataset.Entries[k]) && specRibHead(dataset.Entries[k], entries[k]) })
+//@   loop 2 invariant entry != nil && ribEntry != nil && fresh(ribEntry) && fresh(ribEntry.Routes) && len(ribEntry.Routes) == len(entry.GetRoutes()) && sameSlice(ribEntry.Name, entry.Name)
+//@   loop 2 invariant forallIn(0, rangeindex2+1, func(j int) bool { return ribEntry.Routes[j] != nil && allocated(ribEntry.Routes[j]) && (ribEntry.Routes[j].ExpirationPeriod == nil || allocated(ribEntry.Routes[j].ExpirationPeriod)) })
+//@   loop 2 invariant forallIn(0, rangeindex2+1, func(j int) bool { return specRouteNum(ribEntry.Routes[j], entry.GetRoutes()[j]) })
+//@   loop 2 invariant forallIn(0, rangeindex2+1, func(j int) bool { return specRouteExp(ribEntry.Routes[j], entry.GetRoutes()[j]) })
+//@   loop 2 invariant dataset != nil && fresh(dataset)
+//@   loop 2 invariant -1 <= rangeindex1 && rangeindex1+1 < len(entries) && len(dataset.Entries) == rangeindex1+1
+//@   loop 2 invariant cap(dataset.Entries) == 0 || fresh(dataset.Entries)
+//@   loop 2 invariant forallIn(0, len(dataset.Entries), func(k int) bool { return allocated(dataset.Entries[k]) && dataset.Entries[k] != ribEntry && specRibHead(dataset.Entries[k], entries[k]) })
+//@   assert before append@1 [routes-exact] specRibHead(ribEntry, entry) && forallIn(0, len(ribEntry.Routes), func(j int) bool { return specRouteNum(ribEntry.Routes[j], entry.GetRoutes()[j]) && specRouteExp(ribEntry.Routes[j], entry.GetRoutes()[j]) })
+//@   assert before Encode@1 [exact] len(dataset.Entries) == len(entries) && forallIn(0, len(entries), func(k int) bool { return specRibHead(dataset.Entries[k], entries[k]) })
 
 // ---------------------------------------------------------------------------------------
 // FIB module
 // ---------------------------------------------------------------------------------------
 
 //@ func (*FIBModule).handleIncomingInterest
-//@   requires specCmd(f.manager, interest)
-//@   modifies verifResponses, verifStatus, verifMutCount, verifMutKind, verifMutFace, verifMutCost, f.nextFIBDatasetVersion
+//@   requires specCmd(f.manager, interest) && specFaceExists(inFace)
+//@   modifies verifResponses, verifStatus, verifMutCount, verifMutKind, verifMutFace, verifMutCost, f.nextFIBDatasetVersion, verifMutNameArr, verifMutNameOff, verifMutNameLen
 //@   ensures !specAuth() ==> verifMutCount == old(verifMutCount) && verifResponses == old(verifResponses)
+//@   ensures [one-verb] (verifResponses == old(verifResponses) || verifResponses == old(verifResponses)+1) && (verifMutCount == old(verifMutCount) || verifMutCount == old(verifMutCount)+1)
 //@   assert before prefixLength@1 [auth] specAuth()
 
+// Face existence as for rib/register: precondition [face-exists] of InsertNextHopEnc.
+//
 //@ func (*FIBModule).add
-//@   requires specCmd(f.manager, interest) && specAuth()
-//@   modifies verifResponses, verifStatus, verifMutCount, verifMutKind, verifMutFace, verifMutCost
+//@   requires specCmd(f.manager, interest) && specAuth() && specFaceExists(inFace)
+//@   modifies verifResponses, verifStatus, verifMutCount, verifMutKind, verifMutFace, verifMutCost, verifMutNameArr, verifMutNameOff, verifMutNameLen
 //@   ensures [resp] verifResponses == old(verifResponses)+1
-//@   ensures [ok] verifStatus == 200 ==> verifMutCount == old(verifMutCount)+1 && verifMutKind == 3
+//@   ensures [ok] verifStatus == 200 ==> verifMutCount == old(verifMutCount)+1 && verifMutKind == 3 && specFaceExists(verifMutFace)
 //@   ensures [refuse] verifStatus != 200 ==> verifMutCount == old(verifMutCount)
+//@   ensures [4xx] verifStatus == 200 || (400 <= verifStatus && verifStatus <= 499)
+//@   assert before sendResponse@2 [gone] response.Val.StatusCode == 410 && !specFaceExists(specFaceOr(params.FaceId, inFace))
 //@   assert before FibStrategyTable.InsertNextHopEnc@1 [effect] faceID == specFaceOr(params.FaceId, inFace) && cost == specU64Or(params.Cost, 0)
-//@   assert before LogInfo@1 [effect-recorded] verifMutFace == specFaceOr(params.FaceId, inFace) && verifMutCost == specU64Or(params.Cost, 0)
+//@   assert before LogInfo@1 [effect-recorded] verifMutFace == specFaceOr(params.FaceId, inFace) && verifMutCost == specU64Or(params.Cost, 0) && specNameRec(params.Name)
 
 //@ func (*FIBModule).remove
 //@   requires specCmd(f.manager, interest) && specAuth()
-//@   modifies verifResponses, verifStatus, verifMutCount, verifMutKind, verifMutFace
+//@   modifies verifResponses, verifStatus, verifMutCount, verifMutKind, verifMutFace, verifMutNameArr, verifMutNameOff, verifMutNameLen
 //@   ensures [resp] verifResponses == old(verifResponses)+1
 //@   ensures [ok] verifStatus == 200 ==> verifMutCount == old(verifMutCount)+1 && verifMutKind == 4
+//@   ensures [4xx] verifStatus == 200 || (400 <= verifStatus && verifStatus <= 499)
 //@   ensures [refuse] verifStatus != 200 ==> verifMutCount == old(verifMutCount)
 //@   assert before FibStrategyTable.RemoveNextHopEnc@1 [effect] faceID == specFaceOr(params.FaceId, inFace)
-//@   assert before LogInfo@1 [effect-recorded] verifMutFace == specFaceOr(params.FaceId, inFace)
+//@   assert before LogInfo@1 [effect-recorded] verifMutFace == specFaceOr(params.FaceId, inFace) && specNameRec(params.Name)
 
+// fib/list: the dataset has one record per FIB entry handed out by the table, in that order; record k carries the name
+// of entry k and as many next-hop records as the entry has next hops ([exact], the cut before the dataset is encoded);
+// when a record is appended to the dataset, its next-hop records show, in order, the face and cost of each next hop of
+// that entry ([hops-exact], the cut before the append). Not stated in one formula (nested quantifier): that the
+// next-hop records of EARLIER entries are still unchanged at the end (the loop writes only objects it has just allocated).
+//
 //@ func (*FIBModule).list
 //@   requires specCmd(f.manager, interest)
 //@   modifies f.nextFIBDatasetVersion
+//@   loop 1 invariant dataset != nil && fresh(dataset) && len(dataset.Entries) == rangeindex+1 && (cap(dataset.Entries) == 0 || fresh(dataset.Entries))
+//@   loop 1 invariant forallIn(0, len(dataset.Entries), func(k int) bool { return allocated(dataset.Entries[k]) && specFibHead(dataset.Entries[k], entries[k]) })
+//@   loop 2 invariant fibEntry != nil && fresh(fibEntry) && fresh(fibEntry.NextHopRecords) && len(fibEntry.NextHopRecords) == len(nextHops) && sameSlice(fibEntry.Name, fsEntry.Name()) && sameSlice(nextHops, fsEntry.GetNextHops())
+//@   loop 2 invariant forallIn(0, rangeindex2+1, func(j int) bool { return fibEntry.NextHopRecords[j] != nil && allocated(fibEntry.NextHopRecords[j]) && fibEntry.NextHopRecords[j].FaceId == nextHops[j].Nexthop && fibEntry.NextHopRecords[j].Cost == nextHops[j].Cost })
+//@   loop 2 invariant dataset != nil && fresh(dataset)
+//@   loop 2 invariant -1 <= rangeindex1 && rangeindex1+1 < len(entries)
+//@   loop 2 invariant len(dataset.Entries) == rangeindex1+1
+//@   loop 2 invariant cap(dataset.Entries) == 0 || fresh(dataset.Entries)
+//@   loop 2 invariant forallIn(0, len(dataset.Entries), func(k int) bool { return allocated(dataset.Entries[k]) && dataset.Entries[k] != fibEntry && specFibHead(dataset.Entries[k], entries[k]) })
+//@   assert before append@1 [hops-exact] specFibHead(fibEntry, fsEntry) && forallIn(0, len(nextHops), func(j int) bool { return fibEntry.NextHopRecords[j] != nil && fibEntry.NextHopRecords[j].FaceId == nextHops[j].Nexthop && fibEntry.NextHopRecords[j].Cost == nextHops[j].Cost })
+//@   assert before Encode@1 [exact] len(dataset.Entries) == len(entries) && forallIn(0, len(entries), func(k int) bool { return specFibHead(dataset.Entries[k], entries[k]) })
 
 // ---------------------------------------------------------------------------------------
 // Strategy-choice module
@@ -332,8 +585,9 @@ func lemmaParamsSeparate(p *mgmt.ControlArgs) {}
 
 //@ func (*StrategyChoiceModule).handleIncomingInterest
 //@   requires specCmd(s.manager, interest)
-//@   modifies verifResponses, verifStatus, verifMutCount, verifMutKind, s.nextStrategyDatasetVersion, all(mgmt.Strategy.Name)
+//@   modifies verifResponses, verifStatus, verifMutCount, verifMutKind, s.nextStrategyDatasetVersion, all(mgmt.Strategy.Name), verifMutNameArr, verifMutNameOff, verifMutNameLen
 //@   ensures !specAuth() ==> verifMutCount == old(verifMutCount) && verifResponses == old(verifResponses)
+//@   ensures [one-verb] (verifResponses == old(verifResponses) || verifResponses == old(verifResponses)+1) && (verifMutCount == old(verifMutCount) || verifMutCount == old(verifMutCount)+1)
 //@   assert before prefixLength@1 [auth] specAuth()
 
 // A strategy name must have a strategy component after the strategy prefix (FAILS: #idx when the name equals the prefix).
@@ -341,22 +595,31 @@ func lemmaParamsSeparate(p *mgmt.ControlArgs) {}
 //@ func (*StrategyChoiceModule).set
 //@   requires specCmd(s.manager, interest) && specAuth()
 //@   assume forall(func(k string) bool { return mapHas(fw.StrategyVersions, k) ==> len(fw.StrategyVersions[k]) > 0 })
-//@   modifies verifResponses, verifStatus, verifMutCount, verifMutKind, all(mgmt.Strategy.Name)
+//@   modifies verifResponses, verifStatus, verifMutCount, verifMutKind, all(mgmt.Strategy.Name), verifMutNameArr, verifMutNameOff, verifMutNameLen
 //@   assert before NewVersionComponent@1 uses lemmaParamsSeparate(params) [sep] params.Strategy != nil && specAuth()
 //@   ensures [resp] verifResponses == old(verifResponses)+1
 //@   ensures [ok] verifStatus == 200 ==> verifMutCount == old(verifMutCount)+1 && verifMutKind == 5
+//@   ensures [4xx] verifStatus == 200 || (400 <= verifStatus && verifStatus <= 499)
+//@   assert before LogInfo@1 [name-recorded] specNameRec(params.Name)
 //@   ensures [refuse] verifStatus != 200 ==> verifMutCount == old(verifMutCount)
 
 //@ func (*StrategyChoiceModule).unset
 //@   requires specCmd(s.manager, interest) && specAuth()
-//@   modifies verifResponses, verifStatus, verifMutCount, verifMutKind
+//@   modifies verifResponses, verifStatus, verifMutCount, verifMutKind, verifMutNameArr, verifMutNameOff, verifMutNameLen
 //@   ensures [resp] verifResponses == old(verifResponses)+1
 //@   ensures [ok] verifStatus == 200 ==> verifMutCount == old(verifMutCount)+1 && verifMutKind == 6
+//@   ensures [4xx] verifStatus == 200 || (400 <= verifStatus && verifStatus <= 499)
+//@   assert before LogInfo@1 [name-recorded] specNameRec(params.Name)
 //@   ensures [refuse] verifStatus != 200 ==> verifMutCount == old(verifMutCount)
 
+// strategy-choice/list: one record per entry of the strategy table, in order, each with the entry's name and strategy.
+//
 //@ func (*StrategyChoiceModule).list
 //@   requires specCmd(s.manager, interest)
 //@   modifies s.nextStrategyDatasetVersion
+//@   loop 1 invariant len(strategyChoiceList) == rangeindex+1 && fresh(strategyChoiceList)
+//@   loop 1 invariant forallIn(0, len(strategyChoiceList), func(k int) bool { return allocated(strategyChoiceList[k]) && allocated(strategyChoiceList[k].Strategy) && specChoiceRec(strategyChoiceList[k], entries[k]) })
+//@   assert before Encode@1 [exact] len(strategyChoiceMsg.StrategyChoices) == len(entries) && forallIn(0, len(entries), func(k int) bool { return specChoiceRec(strategyChoiceMsg.StrategyChoices[k], entries[k]) })
 
 // ---------------------------------------------------------------------------------------
 // Content-store module
@@ -366,6 +629,7 @@ func lemmaParamsSeparate(p *mgmt.ControlArgs) {}
 //@   requires specCmd(c.manager, interest) && specFwUp()
 //@   modifies verifResponses, verifStatus, verifMutCount, verifMutKind, verifMutCap, c.nextDatasetVersion
 //@   ensures !specAuth() ==> verifMutCount == old(verifMutCount) && verifResponses == old(verifResponses)
+//@   ensures [one-verb] (verifResponses == old(verifResponses) || verifResponses == old(verifResponses)+1) && (verifMutCount == old(verifMutCount) || verifMutCount == old(verifMutCount)+1)
 //@   assert before prefixLength@1 [auth] specAuth()
 
 // The capacity must be in range (FAILS: any uint64 is cast to int and installed).
@@ -375,6 +639,9 @@ func lemmaParamsSeparate(p *mgmt.ControlArgs) {}
 //@   modifies verifResponses, verifStatus, verifMutCount, verifMutKind, verifMutCap
 //@   ensures [resp] verifResponses == old(verifResponses)+1
 //@   ensures [refuse] verifStatus != 200 ==> verifMutCount == old(verifMutCount)
+//@   ensures [ok] verifStatus == 200 ==> verifMutCount == old(verifMutCount) || (verifMutCount == old(verifMutCount)+1 && verifMutKind == 7)
+//@   ensures [4xx] verifStatus == 200 || (400 <= verifStatus && verifStatus <= 499)
+//@   assert before sendResponse@1 [effect-recorded] response.Val.StatusCode == 200 && (params.Capacity == nil ==> verifMutCount == old(verifMutCount)) && (params.Capacity != nil ==> verifMutCount == old(verifMutCount)+1 && *params.Capacity <= specMaxCsCapacity && verifMutCap == int(*params.Capacity))
 
 //@ func (*ContentStoreModule).info
 //@   requires specCmd(c.manager, interest) && specFwUp()
@@ -387,22 +654,107 @@ func lemmaParamsSeparate(p *mgmt.ControlArgs) {}
 
 //@ func (*FaceModule).handleIncomingInterest
 //@   requires specCmd(f.manager, interest)
-//@   modifies verifResponses, verifStatus, verifMutCount, verifMutKind, verifMutFace, f.nextFaceDatasetVersion
+//@   modifies verifResponses, verifStatus, verifMutCount, verifMutKind, verifMutFace, verifMutMtu, verifFaceSt, f.nextFaceDatasetVersion
 //@   ensures !specAuth() ==> verifMutCount == old(verifMutCount) && verifResponses == old(verifResponses)
+//@   ensures [one-verb] (verifResponses == old(verifResponses) || verifResponses == old(verifResponses)+1) && (verifMutCount == old(verifMutCount) || verifMutCount == old(verifMutCount)+1 || verifMutCount == old(verifMutCount)+2 || verifMutCount == old(verifMutCount)+3)
 //@   assert before prefixLength@1 [auth] specAuth()
 
 //@ func (*FaceModule).destroy
 //@   requires specCmd(f.manager, interest) && specAuth()
-//@   modifies verifResponses, verifStatus, verifMutCount, verifMutKind, verifMutFace
+//@   modifies verifResponses, verifStatus, verifMutCount, verifMutKind, verifMutFace, verifFaceSt
 //@   ensures [resp] verifResponses == old(verifResponses)+1
 //@   ensures [refuse] verifStatus != 200 ==> verifMutCount == old(verifMutCount)
-//@   ensures [ok] verifMutCount != old(verifMutCount) ==> verifMutKind == 8
+//@   ensures [ok] verifMutCount != old(verifMutCount) ==> verifMutKind == 8 && verifMutCount == old(verifMutCount)+1 && !specFaceExists(verifMutFace)
+//@   ensures [4xx] verifStatus == 200 || (400 <= verifStatus && verifStatus <= 499)
+//@   assert before sendResponse@1 [effect-recorded] response.Val.StatusCode == 200 && !specFaceExists(*params.FaceId) && (verifMutCount == old(verifMutCount) || verifMutFace == *params.FaceId)
 
-// MTU too small to carry a packet must be refused (FAILS: any MTU is installed); a face that is not an NDNLP link
-// service must not crash the daemon (type assertion).
+// faces/update. Every face setting (SetPersistency, SetMTU, SetOptions) has the authorisation as precondition; SetMTU
+// also [mtu-range]: the value installed lies in [specMinMTU, specMaxMTU]. An accepted command installs exactly
+// specMtuOf(Mtu) (stated over the uint64 parameter: values above the packet size limit mean the limit); refused
+// commands (face missing 404, null/internal face 401, invalid persistency / Flags without Mask / MTU too small 409)
+// call no setter at all. A 200 answer follows between one and three setter calls (persistency and MTU only when
+// given, the options always).
 //
 //@ func (*FaceModule).update
 //@   requires specCmd(f.manager, interest) && specAuth()
-//@   modifies verifResponses, verifStatus, verifMutCount, verifMutKind
+//@   modifies verifResponses, verifStatus, verifMutCount, verifMutKind, verifMutMtu
 //@   ensures [resp] verifResponses == old(verifResponses)+1
 //@   ensures [refuse] verifStatus != 200 ==> verifMutCount == old(verifMutCount)
+//@   ensures [ok] verifStatus == 200 ==> verifMutKind == 9 && (verifMutCount == old(verifMutCount)+1 || verifMutCount == old(verifMutCount)+2 || verifMutCount == old(verifMutCount)+3)
+//@   ensures [4xx] verifStatus == 200 || (400 <= verifStatus && verifStatus <= 499)
+//@   assert before Options@1 [validated] params.Mtu == nil || *params.Mtu >= specMinMTU
+//@   assert before LogInfo@3 [mtu-effect] newMTU == specMtuOf(*params.Mtu) && verifMutMtu == specMtuOf(*params.Mtu)
+//@   assert before sendResponse@1 [missing] response.Val.StatusCode != 404 || !specFaceExists(specFaceOr(params.FaceId, inFace))
+
+// faces/create. A face is added (the only state change) only on the path that answers 200; every refusal (missing or
+// non-canonical URI 400/406, Flags without Mask 409, existing face 409, non-IP / non-unicast address 406, persistency
+// 406, transport error 406, MTU too small 409, unsupported scheme 406) adds none. When an MTU is given the new
+// transport gets exactly specMtuOf(Mtu), which lies in [specMinMTU, specMaxMTU] ([mtu-range] at transport.SetMTU).
+//
+//@ func (*FaceModule).create
+//@   requires specCmd(f.manager, interest) && specAuth()
+//@   modifies verifResponses, verifStatus, verifMutCount, verifMutKind, verifMutMtu, verifFaceSt, all(defn.URI)
+//@   ensures [resp] verifResponses == old(verifResponses)+1
+//@   ensures [refuse] verifStatus != 200 ==> verifMutCount == old(verifMutCount) && verifFaceSt == old(verifFaceSt)
+//@   ensures [ok] verifStatus == 200 ==> verifMutCount == old(verifMutCount)+1 && verifMutKind == 10
+//@   ensures [4xx] verifStatus == 200 || (400 <= verifStatus && verifStatus <= 499) || verifStatus == 504
+//@   assert before MakeNDNLPLinkService@1 [mtu-effect] params.Mtu != nil ==> *params.Mtu >= specMinMTU && verifMutMtu == specMtuOf(*params.Mtu)
+//@   assert before MakeNDNLPLinkService@2 [mtu-effect] params.Mtu != nil ==> *params.Mtu >= specMinMTU && verifMutMtu == specMtuOf(*params.Mtu)
+
+//@ func (*github.com/named-data/ndnd/fw/face.Table).GetAll
+//@   trusted
+//@   ensures forallIn(0, len(result), func(i int) bool { return specFaceOk(result[i]) })
+
+// One record of the faces dataset: the identifying attributes and the traffic counters of the record are those of the
+// face (NInNacks/NOutNacks are not counted by this forwarder and reported as 0).
+//
+//@ func (*FaceModule).createDataset
+//@   requires specFaceOk(selectedFace)
+//@   ensures result != nil && fresh(result)
+//@   ensures [id] result.FaceId == selectedFace.FaceID() && result.FaceScope == uint64(selectedFace.Scope()) && result.LinkType == uint64(selectedFace.LinkType())
+//@   ensures [in-counters] result.NInInterests == selectedFace.NInInterests() && result.NInData == selectedFace.NInData() && result.NInBytes == selectedFace.NInBytes()
+//@   ensures [out-counters] result.NOutInterests == selectedFace.NOutInterests() && result.NOutData == selectedFace.NOutData() && result.NOutBytes == selectedFace.NOutBytes()
+
+// faces/list: one record per face returned by the face table, in ascending FaceId order; record i is the record
+// (createDataset) of the face registered under the i-th id. [exact] is the cut before the dataset is encoded.
+//
+//@ func (*FaceModule).list
+//@   requires specCmd(f.manager, interest)
+//@   modifies f.nextFaceDatasetVersion
+//@   loop 1 invariant fresh(faceIDs) && len(faceIDs) == rangeindex+1
+//@   loop 1 invariant forallIn(0, len(faceIDs), func(i int) bool { return mapHas(faces, faceIDs[i]) })
+//@   loop 1 invariant forall(func(k uint64) bool { return mapHas(faces, k) ==> specFaceOk(faces[k]) && faces[k].FaceID() == k })
+//@   assert before Slice@1 [ids-registered] forallIn(0, len(faceIDs), func(i int) bool { return mapHas(faces, faceIDs[i]) })
+//@   loop 2 invariant dataset != nil && fresh(dataset) && len(dataset.Vals) == rangeindex2+1 && (cap(dataset.Vals) == 0 || fresh(dataset.Vals))
+//@   loop 2 invariant forallIn(0, len(faceIDs), func(i int) bool { return mapHas(faces, faceIDs[i]) })
+//@   loop 2 invariant forall(func(k uint64) bool { return mapHas(faces, k) ==> specFaceOk(faces[k]) && faces[k].FaceID() == k })
+//@   loop 2 invariant forallIn(0, len(dataset.Vals), func(i int) bool { return dataset.Vals[i] != nil && dataset.Vals[i].FaceId == faceIDs[i] })
+//@   assert before Encode@1 [exact] len(dataset.Vals) == len(faceIDs) && forallIn(0, len(faceIDs), func(i int) bool { return dataset.Vals[i] != nil && dataset.Vals[i].FaceId == faceIDs[i] && mapHas(faces, faceIDs[i]) }) && forallIn(1, len(faceIDs), func(i int) bool { return faceIDs[i-1] <= faceIDs[i] })
+
+// faces/query: never panics for any filter component (missing filter element: ignored); every record is the record of
+// a face of the table.
+//
+//@ func (*FaceModule).query
+//@   requires specCmd(f.manager, interest)
+//@   modifies f.nextFaceDatasetVersion
+//@   loop 1 invariant fresh(matchingFaces) && forallIn(0, len(matchingFaces), func(i int) bool { return 0 <= matchingFaces[i] && matchingFaces[i] < len(faces) })
+//@   loop 2 invariant dataset != nil && fresh(dataset) && (cap(dataset.Vals) == 0 || fresh(dataset.Vals))
+
+// ---------------------------------------------------------------------------------------
+// Forwarder-status module (read only)
+// ---------------------------------------------------------------------------------------
+
+// The forwarding threads registered at start-up (fw/executor) are *fw.Thread values (environment, precondition).
+//
+//@ func (*ForwarderStatusModule).handleIncomingInterest
+//@   requires specCmd(f.manager, interest) && specFwUp()
+//@   requires forallIn(0, len(dispatch.FWDispatch), func(i int) bool { return typeIs(dispatch.FWDispatch[i], "*fw.Thread") && dispatch.FWDispatch[i].(*fw.Thread) != nil })
+//@   modifies verifResponses, verifStatus, f.nextGeneralDatasetVersion
+//@   ensures !specAuth() ==> verifResponses == old(verifResponses)
+//@   assert before prefixLength@1 [auth] specAuth()
+
+//@ func (*ForwarderStatusModule).general
+//@   requires specCmd(f.manager, interest) && specFwUp()
+//@   requires forallIn(0, len(dispatch.FWDispatch), func(i int) bool { return typeIs(dispatch.FWDispatch[i], "*fw.Thread") && dispatch.FWDispatch[i].(*fw.Thread) != nil })
+//@   modifies f.nextGeneralDatasetVersion
+//@   loop 1 invariant 0 <= threadID && status != nil && fresh(status)
